@@ -27,7 +27,7 @@ agent() {
             sh_demo $d $wt
         else
             case $a-$k in
-                V-1|V-4|W-3|B7-4) python3 $T $d $wt --release ;;
+                V-1|V-4|W-3|B7-4|F8-3) python3 $T $d $wt --release ;;
                 V-2) python3 $T $d $wt --release --config profile.release.debug-assertions=true ;;
                 Y-4) RUSTFLAGS="--cfg fuzzing" python3 $T $d $wt ;;
                 *) python3 $T $d $wt ;;
